@@ -102,14 +102,14 @@ def ff_cases(draw, nev):
            "i_init": draw_val(draw, w, s) if draw(BOOL) else 0,
            "reset_less": draw(BOOL), "edge": "neg" if draw(INT(0, 3)) == 0 else "pos",
            "domain_reset_less": draw(INT(0, 3)) == 0, "o_domain": PICK(draw, ["sync", "out"]),
-           "elaborations": 2 if draw(INT(0, 4)) == 0 else 1, "async_domain": draw(INT(0, 2)) == 0}
+           "elaborations": 2 if draw(INT(0, 4)) == 0 else 1, "async_domain": draw(BOOL)}
     # an output that can hold every value of the input (wider, or signed and wider for an unsigned input)
     cfg["o_shape"] = [w, s]
     if draw(INT(0, 3)) == 0:
         cfg["o_shape"] = [w + draw(INT(1, 3)), s or draw(BOOL)]
 
     def extra(d):
-        if d(INT(0, 4)) == 0:
+        if d(INT(0, 1 if cfg["async_domain"] else 4)) == 0:
             return ["rst", d(INT(0, 1))]
         return ["in", draw_val(d, w, s)]
     cfg["events"] = tick_events(draw, nev, ["o", "x"], extra)
